@@ -35,7 +35,8 @@ MANIFEST = {
     'technique': ('flow-sensitive alias analysis (fresh / may-alias-argument) over the CFG of every '
                   'warp/unwarp; index-vs-data use classification of argsort results; stage-order '
                   'check of the pipeline factories against a table of stage kinds; sign-structure check'
-                  '; exact-branch rule (no tolerance calls in warp conditions); definite assignment of warp->unwarp state; infeasible value positivity decided symbolically (sympy)'),
+                  '; exact-branch rule (no tolerance calls in warp conditions); definite assignment of warp->unwarp state; infeasible value positivity decided symbolically (sympy)'
+                  '; stale-mask dataflow (mask defined, array written, mask reused); shape-provenance of zip operands'),
     'level_text': (
         'Static: no warper can write into its caller\'s array, no sort index is used as a label, '
         'pipelines run forward in order and backward in reverse with the NaN-removing stage last '
